@@ -825,7 +825,7 @@ mod tests {
     }
 }
 
-#[cfg(feature = "verif-hooks")]
+#[cfg(feature = "verif-hooks-cm")]
 pub(crate) mod verif_hooks {
     //! Thin wrappers for the external verification harness; they only call the private functions above.
     use super::*;
